@@ -598,7 +598,7 @@ def workload(tier, rng, shard, nshards, work):
                 labs[rng.randrange(4)] = rng.choice(["100%", "5%%", "a%sb", "x y", "%d"])  # labels end up in file names: percent signs, blanks
                 REC.cls("C17:split:label-with-percent-or-blank")
             while i + 1 < len(pts):
-                lab = labs[len(ents)] if rng.random() < 0.8 else rng.choice(["", "sil", "w0"])
+                lab = labs[len(ents)] if rng.random() < 0.8 else rng.choice(["", "sil", "w0", "s", "il", "si"])  # (labels that are part of the word "sil")
                 ents.append((pts[i], pts[i + 1], lab))
                 i += rng.choice((1, 1, 2))
             if rng.random() < 0.04:
